@@ -7,7 +7,7 @@ User events:    new X | is_running i | q i name|ppid | iter | boot_time |
 Every event is executed on the real psutil code inside simk.  The reference
 identity of a process is (pid, incarnation uid) kept by simk.
 """
-from vf.harness import use_world, outcome, freeze
+from vf.harness import use_world, outcome, freeze, residue, ModuleResidue
 from vf.simk.world import World, CLK_TCK
 
 ACTIONS = ["kill", "nice5", "rlimit", "aff0", "ionice", "sig0", "terminate", "suspend", "resume",
@@ -112,6 +112,8 @@ class Exec:
         self.viols = []
         self.label = ""
         self.ndeny = 0
+        self.modres = ModuleResidue([psutil, psutil._pslinux, psutil._common, psutil._psposix],
+                                    known=("_pmap", "_pids_reused", "_LOWEST_PID", "BOOT_TIME"))
         self.cms = {}         # object index -> entered oneshot() context manager
 
     # ------------------------------------------------------------ enabled
@@ -375,6 +377,10 @@ class Exec:
                  "pcache_cur": (lambda c_, p_: None if not c_ or p_ is None else
                                 any(isinstance(v, dict) and v.get("create_time") == str(p_.start).encode() for v in c_.values()))(
                                     getattr(o._proc, "_cache", None), w.procs.get(o.pid)), "exit": repr(o._exitcode) if o._exitcode is not ps._SENTINEL else None}
+            # whatever else the object (or its platform half) remembers
+            d["rest"] = residue(o, ("_pid", "_gone", "_pid_reused", "_name", "_hash", "_cache", "_exitcode", "_ident", "_create_time",
+                                    "_proc", "_lock"))
+            d["prest"] = residue(o._proc, ("pid", "_cache", "_procfs_path"))
             if c.numeric:
                 d["ident"] = None if o._ident[1] is None else round(o._ident[1] - c.btime0, 2)
                 d["ct"] = None if o._create_time is None else round(o._create_time - c.btime0, 2)
@@ -401,7 +407,8 @@ class Exec:
         key = {"slots": {s: (None if v is None else [v[0], rel[v[1]]] + ([v[2] - c.j0] if c.numeric else []))
                          for s, v in slots.items()},
                "objs": objs, "pmap": pmap, "reused": sorted(ps._pids_reused),
-               "lowest": ps._LOWEST_PID, "ranf": list(self.ran_false), "ndeny": self.ndeny}
+               "lowest": ps._LOWEST_PID, "ranf": list(self.ran_false), "ndeny": self.ndeny,
+               "modules": self.modres.diff()}
         if c.numeric:
             key["bt"] = None if lin.BOOT_TIME is None else lin.BOOT_TIME - c.btime0
             key["btime"] = w.btime - c.btime0
